@@ -59,7 +59,8 @@ RULE = (
     '"layered" (global/stage/platform variables, the same name in two stages, active platform default), "override" '
     '(blueprints + component override for P + prefix-colliding names A/AB/A.B, active platform P), "flattened" (a '
     'replicated primitive=False configuration with an unresolvable variable, names x / x.y / xy and a platform P that '
-    'does not exist until a mutator creates it); thorough adds the same documents with the other active platform to '
+    'does not exist until a mutator creates it). The second platform has a legal name with characters outside '
+    '[A-Za-z0-9_] in two documents ("P-1", "p2-x_y") and a plain word in the third; thorough adds the same documents with the other active platform to '
     'depth 3. States with equal canonical key (active platform + typed raw() with the component list as a set + cache '
     'labels/digests) are merged; the lexicographically smallest history of the first level that reaches a state '
     'represents it. Every transition is judged: 3 components x 2 platforms of the cached flavour against a '
@@ -69,7 +70,11 @@ RULE = (
     'the cache with the value returned when it was filled), followed by the three uncached flavours (raw=True; '
     'include_default=False; raw=True+inject_missing_fields=False) for c0,c1 on the active platform, instance() for '
     'both platforms, and a check that neither scrambled results nor these read-only calls changed what the '
-    'description answers; a query operation of the history is itself judged against the description it was asked on. '
+    'description answers; then, on a second replay of the history, the MODE pass: validate(), and for every '
+    '(component, platform) the lenient modes is_primitive=True and ignore_convert_errors=True BEFORE the regular '
+    'query, each compared with the same call on a from-scratch object (the added component c2 refers to %(replica)s, '
+    'the re-added c1 has an option that cannot be converted, so lenient and regular answers really differ); '
+    'a query operation of the history is itself judged against the description it was asked on. '
     'A history is non-trivial when it contains at least one mutator and at least one cached query; distinct = '
     'distinct (document, history). Excluded (grey zone): component names with regular-expression meta characters '
     'other than ".", update_component with a description whose stage/name differ from the id, writes through live '
